@@ -445,6 +445,25 @@ void _ZNSt6vectorINSt7__cxx1112basic_stringIcSt11char_traitsIcESaIcEEESaIS5_EE9p
 }
 #endif
 
+#if defined(DECL__ZNSt6vectorINSt7__cxx1112basic_stringIcSt11char_traitsIcESaIcEEESaIS5_EE9push_backERKS5_)
+#ifndef VERIF_VEC_CAP
+#define VERIF_VEC_CAP 4
+#endif
+/* push_back(const string&): same block model, the string is copied */
+void _ZNSt6vectorINSt7__cxx1112basic_stringIcSt11char_traitsIcESaIcEEESaIS5_EE9push_backERKS5_(void *v_, vstr *o)
+{
+  struct vs_vec *v = v_;
+  if (v->b == 0) {
+    vstr *blk = malloc(sizeof(vstr) * VERIF_VEC_CAP);
+    __CPROVER_assume(blk != 0);
+    v->b = blk; v->e = blk; v->c = blk + VERIF_VEC_CAP;
+  }
+  __CPROVER_assert(v->e != v->c, "BOUND: vector<string> model capacity (VERIF_VEC_CAP) too small");
+  __CPROVER_assume(v->e != v->c);
+  vs_construct(v->e, SP(o), SLEN(o));
+  v->e = v->e + 1;
+}
+#endif
 /* vector<string>::operator[] contract (libstdc++ __glibcxx_requires_subscript): index < size() */
 #if defined(DECL__ZNSt6vectorINSt7__cxx1112basic_stringIcSt11char_traitsIcESaIcEEESaIS5_EEixEm)
 vstr *_ZNSt6vectorINSt7__cxx1112basic_stringIcSt11char_traitsIcESaIcEEESaIS5_EEixEm(void *v_, u64 i)
